@@ -330,7 +330,7 @@ def source_hashes(units):
     return res
 
 
-def run_property(pid, modname, tier, seed, level_note, assumptions, bounds, only=None):
+def run_property(pid, modname, tier, seed, level_note, assumptions, bounds, only=None, extra=None):
     t0 = time.time()
     mod = importlib.import_module(modname)
     jobs = []
@@ -350,6 +350,7 @@ def run_property(pid, modname, tier, seed, level_note, assumptions, bounds, only
     results.sort(key=lambda r: (r["harness"], json.dumps(r["params"], sort_keys=True, default=str)))
 
     known = load_known()
+    extra_res = extra(tier, known) if extra is not None else None
     agg = core.Stats()
     violations, known_hits, unconfirmed, errors, inconclusive, candidates = [], [], [], [], [], []
     validated = 0
@@ -404,6 +405,19 @@ def run_property(pid, modname, tier, seed, level_note, assumptions, bounds, only
                 known_hits.append((k, entry))
             else:
                 violations.append(entry)
+    if extra_res:
+        for v in extra_res.get("violations", []):
+            k = match_known(known, pid, v["harness"], v["label"], v["params"], v.get("inputs"))
+            if k is not None:
+                known_hits.append((k, v))
+            else:
+                violations.append(v)
+        unconfirmed += extra_res.get("unconfirmed", [])
+        errors += extra_res.get("errors", [])
+        inconclusive += extra_res.get("inconclusive", [])
+        validated += extra_res.get("validated", 0)
+        if extra_res.get("samples"):
+            samples = extra_res["samples"][:3] + samples
     # vacuity guards
     broken = []
     for h in mod.HARNESSES:
@@ -464,6 +478,15 @@ def run_property(pid, modname, tier, seed, level_note, assumptions, bounds, only
     for ph in per_h.values():
         for k in tot:
             tot[k] += ph[k]
+    if extra_res:
+        tot["paths"] += extra_res.get("states", 0)
+        tot["queries"] += extra_res.get("transitions", 0)
+        tot["obligations"] += extra_res.get("obligations", 0)
+        tot["proved"] += extra_res.get("proved", 0)
+        tot["unsat"] += extra_res.get("unsat", 0)
+        tot["sat"] += extra_res.get("sat", 0)
+        for u, v in extra_res.get("functions", {}).items():
+            units[u] = v
     tot["solver_s"] = round(tot["solver_s"], 3)
     wall = round(time.time() - t0, 3)
     if not samples:
@@ -490,6 +513,7 @@ def run_property(pid, modname, tier, seed, level_note, assumptions, bounds, only
                              for r in sorted(results, key=lambda r: -r.get("wall_s", 0))[:6]], harness_broken=broken, errors=[e[:400] for e in errors][:10],
             units_missing=missing_units,
             regenerated_from=REPO,
+            **({"paramflow": extra_res.get("coverage", {})} if extra_res else {}),
         ),
         assumptions=assumptions, wall_s=wall, violations=len(vio_files),
     )
